@@ -8,7 +8,9 @@ the draws actually consumed are replayed through the `Float` instance of `Core/R
 are compared with relative tolerance 1e-9.  The oracle evaluates the property text on the
 implementation's own result: identity of the returned objects, lengths, `math.isfinite`, not complex,
 bounds *exactly* (`xl <= c <= xu` in doubles), sums within the PROVED rounding bound (exact rational arithmetic),
-blend range within a rounding tolerance, untouched individual for indpb = 0, strategies > 0.
+blend range within the PROVED rounding allowance (C10.blend_range_rounded, exact rational arithmetic), untouched individual
+for indpb = 0, strategies > 0.  Histories: consecutive calls of the bounded operators sharing bound objects that are edited in
+place between the calls (stream `hist`).  mutESLogNormal on both sides of the proved boundary of the positivity clause (`xlogn`).
 
 Rounded semantics (Core/RoundedOps.lean): the final clamp on `XF` (finite | +inf | -inf | nan) against CPython's
 `min(max(c, xl), xu)`; the decidable hypotheses of the NaN-freedom theorems (C10.sbxb_rounded_locus,
@@ -41,7 +43,15 @@ RULE = ("grid: single-locus cases over genes {low, interior, up} x eta {0,1,20,1
         "1e-300 to 1.8e308 (also overflowing widths and overflowing parent sums), bounds at 0, +-w, +-1, +-1e300, "
         "parents on the bounds / one ulp inside / mid, eta in {0, 1e-3, 1, 20, 1e3, 1e6, 1e15, 1e300}, shaping draws in "
         "{0, 5e-324, 1e-300, 2^-53, .25, .5-2^-53, .5, .5+2^-53, .75, 1-2^-52, 1-2^-53} (tag = failing hypothesis "
-        "clauses / gene states), plus the inputs of the counterexample theorems; alias: "
+        "clauses / gene states), plus the inputs of the counterexample theorems; hist: histories of 3..6 calls of "
+        "mutPolynomialBounded / cxSimulatedBinaryBounded in which one `low` and one `up` sequence object (list or array('d')) "
+        "are passed again and again and edited in place in between (box narrowed, moved, resized; item or slice assignment), "
+        "mixed with fresh sequences of the same contents, tuples and scalars, 1..4 bound pairs, individuals as long as or "
+        "shorter than the bounds, sometimes the same individual object again; every call judged against / replayed with the "
+        "contents at that call; xlogn (mostly outside the statement's quantifier): mutESLogNormal with strategies from 5e-324 to "
+        "1.7e308, c in {1..1000}, the exponent argument steered to {-800..-744 (exp underflow), the product boundary "
+        "s*exp(a) ~ 2^-1074, 709..750 (OverflowError)} or left to boundary gauss draws (tag = failing clauses of the proved "
+        "hypothesis / pos, zero, OverflowError); alias: "
         "crossover called with the same object twice (oracle only); containers: every operator x every kind of sequence "
         "individual (list, array('d'), numpy.ndarray, a user class keeping its genes in an inner list with integer "
         "indexing only, a user class with the bare __len__/__getitem__/__setitem__ protocol); random: 1..8 (sometimes "
@@ -66,8 +76,16 @@ TRUSTED = ["IEEE-754 binary64 / libm (pow, exp, sqrt) behave the same in CPython
            "floating-point arithmetic fl(a op b) = (a op b)(1+d), |d| <= u, products + e, |e| <= nu, no overflow; that "
            "binary64 round-to-nearest satisfies it with u = 2^-53, nu = 2^-1075 is textbook and trusted; the oracle "
            "evaluates exactly that bound over the rationals",
-           "what remains outside every model: exp underflow / OverflowError in mutESLogNormal, the unbounded "
-           "operators' overflow for huge genes, rounding in the blend range clause (tolerance 1e-9)",
+           "C10.blend_range_rounded / esblend_range_rounded: in the same standard model the blend children lie in the widened "
+           "parental interval up to E = (7/2 u (2+alpha+Eg) + Eg)(|x1|+|x2|) + 9/4 nu, Eg = 6u(1+2alpha) + 4nu; the oracle evaluates "
+           "exactly that over the rationals (no ad-hoc tolerance left in the range clause)",
+           "C10.lognormal_pos_rounded(_locus): positivity of the new strategy under the decidable hypothesis lognMag, for every "
+           "arithmetic whose exp is finite up to 709 and at least 2^-k from -0.693k on (k <= 1074) — that libm's exp is such a "
+           "function is trusted and probed by the stream xlogn (hypothesis holds => real strategy > 0); beyond the hypothesis the "
+           "real code returns 0.0 strategies or raises OverflowError (C10.lognormal_underflow_zero / _overflow_raises): recorded "
+           "reading, nothing is demanded there",
+           "what remains outside every model: the unbounded operators' overflow for genes beyond ~1e291 (C10.sbx_rounded takes "
+           "the representable caps as parameters), mutGaussian's addition overflowing for genes next to the largest double",
            "the clause 'modify and return the objects they were given' rests on the harness's `is` tests (returned "
            "individual is the input, its strategy list is the input's strategy list) on every explored call: the "
            "model writes `{ ind with genes := .. }`, so the C10.*_in_place theorems hold by construction of the "
@@ -82,7 +100,14 @@ ASSUMPTIONS = ["genes are finite doubles inside [low, up]; low < up, magnitudes 
                "through the oracle (stream `alias`), not through the model",
                "ES strategies and sigma between 1e-6 and 1e6, learning parameter c in [0,50] (from c ~ 61 on, or for "
                "subnormal strategies, exp underflow can turn a positive strategy into 0.0 and math.exp can raise "
-               "OverflowError under boundary gauss draws — outside the stated domain)",
+               "OverflowError under boundary gauss draws — outside the stated domain).  Exact boundary (proved): the clause "
+               "holds whenever the computed exponent argument a = t0*N + t*N_i and the strategy s satisfy s > 0, a <= 709, "
+               "k = ceil(-a/0.693) <= 1074 and s * 2^-k >= 2^-1074 (C10.lognormal_pos_rounded_locus); the statement's domain "
+               "(s >= 1e-6, c <= 50, |N| <= 8.57: a >= -607) lies inside it",
+               "the blend range clause is read up to rounding with the proved allowance E of C10.blend_range_rounded "
+               "(< 45 * 2^-53 * (|x1| + |x2|) for alpha <= 2), compared exactly over the rationals",
+               "bounds are passed as Sequences (list, tuple, array('d')); a numpy.ndarray is not a collections.abc.Sequence and "
+               "the operators treat it as a scalar, so numpy bounds are not part of the history stream (numpy individuals are)",
                "the sum clause is read up to rounding: |c1 + c2 - (x1 + x2)| <= 6*2^-53*(|x1|+|x2|)*(1+|gamma|) + 5*2^-1075 "
                "for cxBlend / cxESBlend and <= 5*2^-53*(|x1|+|x2|)*(1+|beta|) + 5*2^-1075 for cxSimulatedBinary, gamma / beta "
                "as the code computed them (theorems C10.*_sum_rounded; compared exactly over the rationals). For "
@@ -102,9 +127,10 @@ EXPLANATION = ("Theorems C10.* are proved for all lengths, genes, bounds, parame
                "crossovers — also in a rounded semantics (any monotone, exact-on-representables rounding with IEEE "
                "special values; the standard model of floating-point error for the sums). Core/RealOps.lean keeps the "
                "Python operation order, so the same definitions run on Float (correspondence), on the reals and on the "
-               "rounded scalars. The strength stays partial: that CPython's arithmetic and libm's pow satisfy the laws "
-               "of the rounded semantics is trusted and probed, not proved; the ES mutations and the blend range clause "
-               "have no rounded theorem; and object identity ('modify and return the objects they were given') is "
+               "rounded scalars. Since round 7 the blend range clause, the ES mutations (with the exact boundary of "
+               "the positivity clause and witnesses beyond it) and unbounded SBX have rounded theorems too. The strength "
+               "stays partial: that CPython's arithmetic and libm's pow / exp satisfy the laws "
+               "of the rounded semantics is trusted and probed, not proved; and object identity ('modify and return the objects they were given') is "
                "established by the harness's `is` tests on the real objects.")
 
 EPSM = 2.0 ** -53
@@ -336,6 +362,28 @@ def check_range(name, a, b, c, d, alpha):
     return None
 
 
+def blend_range_err(alpha, X):
+    """RealOps.blendRangeErr at u = 2^-53, nu = 2^-1075 (C10.blend_range_rounded / esblend_range_rounded), exact"""
+    eg = 6 * U64 * (1 + 2 * alpha) + 4 * NU64
+    return (Fraction(7, 2) * U64 * (2 + alpha + eg) + eg) * X + Fraction(9, 4) * NU64
+
+
+def check_range_exact(name, a, b, c, d, alpha):
+    """the blend range clause with the PROVED rounding allowance, evaluated exactly over the rationals: both children
+    inside [min - alpha*w - E, max + alpha*w + E], w = |x1 - x2|, E = blendRangeErr(2^-53, 2^-1075, alpha, |x1|+|x2|)"""
+    al = Fraction(float(alpha))
+    for i in range(min(len(a), len(b))):
+        x1, x2, y1, y2 = (Fraction(float(v)) for v in (a[i], b[i], c[i], d[i]))
+        lo, hi, w = min(x1, x2), max(x1, x2), abs(x1 - x2)
+        e = blend_range_err(al, abs(x1) + abs(x2))
+        for v in (y1, y2):
+            if not (lo - al * w - e <= v <= hi + al * w + e):
+                return "%s: child %r outside [min - alpha*w, max + alpha*w] = [%r, %r] at locus %d by more than the " \
+                       "proved rounding allowance %.3g" % (name, float(v), float(lo - al * w), float(hi + al * w), i,
+                                                         float(e))
+    return None
+
+
 def check_bounds(name, out, lo, up, n):
     for i in range(n):
         if not (lo[i] <= out[i] <= up[i]):
@@ -448,6 +496,11 @@ def evaluate(d):
             return evaluate_xclamp(d)
         if d.get("xmag"):
             return evaluate_xmag(d)
+        if d["op"] == "hist":
+            return evaluate_hist(d)
+        if d.get("xlogn"):
+            with numpy.errstate(all="ignore"):
+                return evaluate_xlogn(d)
         return _evaluate(d)
     except (tapemod.TapeExhausted, tapemod.TapeMismatch) as e:
         # the operator no longer draws what the model replays: a break of the correspondence, not a failing input
@@ -576,6 +629,215 @@ def poly_why(eta, x, xl, xu, rand):
     if not 0 <= rand < 1:
         return "rand"
     return "ok"
+
+
+LN2LO = Fraction(693, 1000)
+TINY = Fraction(1, 2 ** 1074)
+EXPMAX = 709
+KMAX = 1074
+
+
+def logn_k(a):
+    """RoundedOps.lognK: the smallest k >= 0 with -k * 0.693 <= a"""
+    return max(0, math.ceil(-a / LN2LO))
+
+
+def logn_why(s, a):
+    """first failing clause of `lognMag binary64 s a (lognK a)`, the hypothesis of C10.lognormal_pos_rounded_locus, on
+    exact values (Lean: RoundedOps.lognWhy)"""
+    if not _allfinite(s, a):
+        return "nonfinite"
+    s, a = Fraction(float(s)), Fraction(float(a))
+    if not 0 < s:
+        return "strategy"
+    if not a <= EXPMAX:
+        return "overflow"
+    k = logn_k(a)
+    if not k <= KMAX:
+        return "expunderflow"
+    if not -k * LN2LO <= a:
+        return "k"
+    if not TINY <= s / 2 ** k:
+        return "underflow"
+    return "ok"
+
+
+def logn_sites(n, c, indpb, rs, zs):
+    """mutated loci of mutESLogNormal for the forced draws, with the exponent argument `t0_n + t * gauss` computed as
+    the code computes it (:233-240): (i, a)"""
+    t = c / math.sqrt(2. * math.sqrt(n))
+    t0 = c / math.sqrt(2. * n)
+    t0_n = t0 * (0 + zs[0] * 1)
+    k, out = 1, []
+    for i in range(min(n, len(rs))):
+        if rs[i] < indpb:
+            if k >= len(zs):
+                break
+            out.append((i, t0_n + t * (0 + zs[k] * 1)))
+            k += 2
+    return out
+
+
+def in_logn_domain(c, s):
+    """the stated domain of the ES clause (ASSUMPTIONS): strategies between 1e-6 and 1e6, c in [0, 50]"""
+    return 0 <= c <= 50 and all(1e-6 <= v <= 1e6 for v in s)
+
+
+def evaluate_xlogn(d):
+    """mutESLogNormal on both sides of the boundary of "positive strategies stay positive" (outside the statement's
+    quantifier for the most part): subnormal .. huge strategies, learning parameters up to 1e3, boundary gauss draws.
+    Compared: (1) the decidable hypothesis lognMag of C10.lognormal_pos_rounded_locus as Lean evaluates it on the exact
+    values against an independent evaluation here; (2) the theorem's conclusion on the real result: hypothesis holds at
+    every mutated locus => no exception and the new strategy value is > 0; (3) the Float model against the real
+    operator when it returns.  Where the hypothesis fails nothing is demanded: a strategy that becomes 0.0 (tag
+    `zero`) or an OverflowError (tag `OverflowError`) there is the recorded reading (C10.lognormal_underflow_zero,
+    C10.lognormal_overflow_raises)."""
+    cont = d.get("cont", "list")
+    x, s = list(d["x"]), list(d["s"])
+    rs, zs = d["rs"], d["zs"]
+    n = len(x)
+    ind = mk_ind(cont, x, s)
+    so = ind.strategy
+    res, t = run(tools.mutESLogNormal, rs, zs, ind, d["c"], d["indpb"])
+    sites = logn_sites(n, d["c"], d["indpb"], rs, zs)
+    whys = [(i, a, logn_why(s[i], a)) for i, a in sites]
+    hyp_lines = ["C10 xhyp logn %s %s" % (fbits(s[i]), fbits(a)) for i, a, _ in whys]
+    hyp_exp = [w for _, _, w in whys]
+    all_ok = all(w == "ok" for w in hyp_exp)
+    inside = in_logn_domain(d["c"], s)
+    pre = "" if inside else "CORRESPONDENCE: "
+    letters = "+".join(sorted(set(hyp_exp))) or "skip"
+    if isinstance(res, str):
+        orc = None
+        if all_ok:
+            orc = pre + "implementation raised %s although the hypothesis of C10.lognormal_pos_rounded_locus holds at " \
+                        "every mutated locus" % res
+        return Case(d, hyp_lines, hyp_exp, orc, tag="logn/xlogn/%s/%s" % (letters, res), nontrivial=bool(whys), tol=1e-9)
+    orc = check_same(res, (ind,), "logn")
+    if orc is None and ind.strategy is not so:
+        orc = "mutESLogNormal replaced the strategy list instead of modifying it in place"
+    ts = list(ind.strategy)
+    states = set()
+    if orc is None:
+        if len(list(ind)) != n or len(ts) != len(s):
+            orc = "mutESLogNormal changed a length"
+    if orc is None:
+        for i, a, w in whys:
+            st = "pos" if ts[i] > 0 else "zero" if ts[i] == 0 else "bad"
+            states.add(st)
+            if w == "ok" and st != "pos" and orc is None:
+                orc = pre + "strategy[%d] = %r is not strictly positive (was %r, exponent argument %r) although the " \
+                            "hypothesis of C10.lognormal_pos_rounded_locus holds" % (i, ts[i], s[i], a)
+        touched = set(i for i, _, _ in whys)
+        for i in range(len(s)):
+            if i not in touched and not (ts[i] == s[i]) and orc is None:
+                orc = "strategy[%d] changed from %r to %r although the locus was not mutated" % (i, s[i], ts[i])
+    line = "C10 logn %s %s %s %s %s %s" % (fbits(d["c"]), fbits(d["indpb"]), flist(x), flist(s), flist(t.used_r),
+                                           flist(t.used_g))
+    exp = "ok %s,%d %s %s 0 0" % ("1" if res[0] is ind else "0", 3 if res[0].strategy is so else 0,
+                                  flist(res[0]), flist(res[0].strategy))
+    tag = "logn/xlogn/%s/%s" % (letters, "+".join(sorted(states)) or "-")
+    return Case(d, [line] + hyp_lines, [exp] + hyp_exp, orc, tag=tag, nontrivial=bool(whys), tol=1e-9)
+
+
+def _mk_seq(kind, vals):
+    if kind == "array":
+        return array.array("d", vals)
+    if kind == "tuple":
+        return tuple(vals)
+    return list(vals)
+
+
+def evaluate_hist(d):
+    """a HISTORY of calls of the two bounded operators that share bound objects: one `low` and one `up` sequence object
+    (list or array('d')) live through the whole history and are edited IN PLACE between calls (element assignment or
+    slice assignment, possibly changing their length); other calls get fresh objects with the same contents, tuples, or
+    scalars.  Every call is judged against the contents of the bounds AT THAT CALL (snapshot taken just before it) and
+    replayed through the model with that snapshot."""
+    kind = d.get("kind", "list")
+    shared = {"low": _mk_seq(kind, []), "up": _mk_seq(kind, [])}
+    keep = {}
+    lines, exps, orc, tags = [], [], None, set()
+    prev, nshared = None, 0
+    for ci, c in enumerate(d["calls"]):
+        args, snap = {}, {}
+        for side in ("low", "up"):
+            b = c[side]
+            if b["mode"] == "scalar":
+                args[side] = b["v"]
+                snap[side] = b["v"]
+            elif b["mode"] == "shared":
+                obj = shared[side]
+                vals = [float(v) for v in b["vals"]]
+                if b.get("how") == "slice" or len(vals) != len(obj):
+                    obj[:] = _mk_seq(kind, vals) if kind != "tuple" else vals
+                else:
+                    for j, v in enumerate(vals):
+                        if obj[j] != v:
+                            obj[j] = v
+                args[side] = obj
+                snap[side] = list(vals)
+            else:
+                args[side] = _mk_seq(b.get("kind", kind), [float(v) for v in b["vals"]])
+                snap[side] = [float(v) for v in b["vals"]]
+        cont = c.get("cont", "list")
+        tags.add(c["fn"])
+        nshared += (c["low"]["mode"] == "shared") or (c["up"]["mode"] == "shared")
+        if c["fn"] == "poly":
+            x = list(c["x"])
+            n = len(x)
+            if c.get("reuse") and prev is not None and len(prev) == n:
+                ind = prev
+                for j, v in enumerate(x):
+                    ind[j] = v
+            else:
+                ind = mk_ind(cont, x)
+            res, t = run(tools.mutPolynomialBounded, c["rs"], [], ind, c["eta"], args["low"], args["up"], c["indpb"])
+            lines.append("C10 poly %s %s %s %s %s %s" % (fbits(c["eta"]), flist(x), btok(snap["low"]), btok(snap["up"]),
+                                                         fbits(c["indpb"]), flist(t.used_r)))
+            if isinstance(res, str):
+                exps.append(res)
+                if orc is None:
+                    orc = "call %d (mutPolynomialBounded): implementation raised %s" % (ci, res)
+                continue
+            lo, up = per_locus(snap["low"], n), per_locus(snap["up"], n)
+            y = list(res[0])
+            if orc is None:
+                orc = first(check_same(res, (ind,), "poly"), check_genes("mutant", y, n),
+                            check_bounds("mutant", y, lo, up, n))
+                if orc:
+                    orc = "call %d of the history (mutPolynomialBounded, bounds at this call low=%r up=%r): %s" % (
+                        ci, snap["low"], snap["up"], orc)
+            exps.append("ok %s %s 0" % (ident(res, (ind,)), flist(res[0])))
+            prev = ind
+        else:
+            x1, x2 = list(c["x1"]), list(c["x2"])
+            n = min(len(x1), len(x2))
+            i1, i2 = mk_ind(cont, x1), mk_ind(cont, x2)
+            res, t = run(tools.cxSimulatedBinaryBounded, c["rs"], [], i1, i2, c["eta"], args["low"], args["up"])
+            lines.append("C10 sbxb %s %s %s %s %s %s" % (fbits(c["eta"]), flist(x1), flist(x2), btok(snap["low"]),
+                                                         btok(snap["up"]), flist(t.used_r)))
+            if isinstance(res, str):
+                exps.append(res)
+                if orc is None:
+                    orc = "call %d (cxSimulatedBinaryBounded): implementation raised %s" % (ci, res)
+                continue
+            lo, up = per_locus(snap["low"], n), per_locus(snap["up"], n)
+            c1, c2 = list(res[0]), list(res[1])
+            if orc is None:
+                orc = first(check_same(res, (i1, i2), "sbxb"), check_genes("child1", c1, len(x1)),
+                            check_genes("child2", c2, len(x2)), check_bounds("child1", c1, lo, up, n),
+                            check_bounds("child2", c2, lo, up, n))
+                if orc:
+                    orc = "call %d of the history (cxSimulatedBinaryBounded, bounds at this call low=%r up=%r): %s" % (
+                        ci, snap["low"], snap["up"], orc)
+            exps.append("ok %s %s %s 0" % (ident(res, (i1, i2)), flist(res[0]), flist(res[1])))
+        # the operator must not have written into the caller's bound objects
+        for side in ("low", "up"):
+            if isinstance(snap[side], list) and list(args[side]) != snap[side] and orc is None:
+                orc = "call %d of the history: the operator modified the caller's `%s` sequence" % (ci, side)
+    return Case(d, lines, exps, orc, tag="hist/%s/%s/%s" % (kind, "+".join(sorted(tags)), "shared>=2" if nshared >= 2 else "shared<2"),
+                nontrivial=nshared >= 2, tol=1e-9)
 
 
 def sbxb_crossed(x1, x2, rs):
@@ -719,7 +981,7 @@ def _evaluate(d):
             orc = first(check_genes("child1", c1, len(x1)), check_genes("child2", c2, len(x2)))
         if orc is None and op == "blend":
             orc = first(check_sum_exact(op, x1, x2, c1, c2, 6, blend_factors(d["alpha"], t.used_r[:n])),
-                        check_range(op, x1, x2, c1, c2, d["alpha"]))
+                        check_range_exact(op, x1, x2, c1, c2, d["alpha"]))
         if orc is None and op == "sbx":
             orc = check_sum_exact(op, x1, x2, c1, c2, 5, sbx_factors(d["eta"], t.used_r[:n]))
         if orc is None and op == "sbxb":
@@ -761,8 +1023,8 @@ def _evaluate(d):
                                         blend_factors(d["alpha"], t.used_r[0:2 * m:2])),
                         check_sum_exact("esblend strategies", s1[:m], s2[:m], t1, t2, 6,
                                         blend_factors(d["alpha"], t.used_r[1:2 * m:2])),
-                        check_range("esblend genes", x1[:m], x2[:m], c1, c2, d["alpha"]),
-                        check_range("esblend strategies", s1[:m], s2[:m], t1, t2, d["alpha"]))
+                        check_range_exact("esblend genes", x1[:m], x2[:m], c1, c2, d["alpha"]),
+                        check_range_exact("esblend strategies", s1[:m], s2[:m], t1, t2, d["alpha"]))
         if edge:
             orc = None
         ids = "%s,%d,%s,%d" % ("1" if res[0] is i1 else "0", 3 if res[0].strategy is s1o else 0,
@@ -1349,10 +1611,110 @@ def xclamp_case(rng):
     return {"op": "xclamp", "cat": "xclamp", "c": dv(c), "xl": dv(a), "xu": dv(b)}
 
 
+# ---------------------------------------------------------------------------------------------
+# histories of calls sharing bound objects; the boundary of the log-normal positivity clause
+# ---------------------------------------------------------------------------------------------
+def hist_case(rng):
+    """3..6 consecutive calls of mutPolynomialBounded / cxSimulatedBinaryBounded.  One `low` and one `up` sequence object
+    are shared by the calls in mode `shared` and edited in place in between (box narrowed, moved, resized); the other
+    modes pass fresh sequences with the current contents, tuples or scalars."""
+    kind = rng.choice(["list", "list", "array"])
+    m = rng.choice([1, 1, 2, 3, 4])
+    ps = [rand_bound_pair(rng) for _ in range(m)]
+    if rng.random() < 0.4:
+        ps = [ps[0]] * m
+    calls = []
+    fn = rng.choice(["poly", "poly", "sbxb"])
+    for ci in range(rng.randint(3, 6)):
+        if ci:
+            r = rng.random()
+            if r < 0.55:                                   # narrow the box in place
+                nps = []
+                for lo, up in ps:
+                    a = lo + (up - lo) * rng.uniform(0.0, 0.45)
+                    b = up - (up - lo) * rng.uniform(0.0, 0.45)
+                    nps.append((a, b) if a < b and b - a >= 1e-6 else (lo, up))
+                ps = nps
+            elif r < 0.75:                                 # move it
+                ps = [(lo + (up - lo) * sh, up + (up - lo) * sh) for (lo, up), sh in
+                      ((p, rng.choice([-1.5, -1.0, -0.5, 0.5, 1.0, 1.5])) for p in ps)]
+                ps = [(lo, up) if abs(lo) <= 1e6 and abs(up) <= 2e6 else (0.0, 1.0) for lo, up in ps]
+            elif r < 0.85:                                 # another number of bound pairs
+                m = rng.choice([1, 2, 3, 4])
+                ps = (ps + [rand_bound_pair(rng) for _ in range(m)])[:m]
+            if rng.random() < 0.15:
+                fn = rng.choice(["poly", "sbxb"])
+        modes = {}
+        for side in ("low", "up"):
+            r = rng.random()
+            modes[side] = "shared" if r < 0.6 else "new" if r < 0.8 else "scalar"
+        if rng.random() < 0.5:
+            modes["up"] = modes["low"]
+        spec, eff = {}, {}
+        for side, k in (("low", 0), ("up", 1)):
+            vals = [p[k] for p in ps]
+            if modes[side] == "scalar":
+                v = min(vals) if side == "low" else max(vals)
+                spec[side] = {"mode": "scalar", "v": v}
+                eff[side] = [v] * len(ps)
+            elif modes[side] == "shared":
+                spec[side] = {"mode": "shared", "vals": vals, "how": rng.choice(["item", "item", "slice"])}
+                eff[side] = vals
+            else:
+                spec[side] = {"mode": "new", "vals": vals, "kind": rng.choice([kind, "list", "tuple"])}
+                eff[side] = vals
+        n = len(ps) if rng.random() < 0.8 else rng.randint(1, len(ps))
+        eta = rng.choice([0, 0, 0.0, 0.5, 1, 1.0, 2.0, 20.0, 1000.0])
+        c = {"fn": fn, "low": spec["low"], "up": spec["up"], "eta": eta,
+             "cont": rng.choice(["list", "list", "array", "ndarray"])}
+        if fn == "poly":
+            c.update(x=[rand_gene(rng, eff["low"][i], eff["up"][i]) for i in range(n)], indpb=1.0,
+                     reuse=rng.random() < 0.3,
+                     rs=[v for _ in range(n) for v in (rng.random(), rng.choice([0.0, TOP, rng.random(), rng.random()]))])
+        else:
+            x1 = [rand_gene(rng, eff["low"][i], eff["up"][i]) for i in range(n)]
+            x2 = [rand_gene(rng, eff["low"][i], eff["up"][i]) for i in range(n)]
+            c.update(x1=x1, x2=x2, rs=[v for _ in range(n) for v in (rng.random() * 0.5, rng.choice(
+                [0.0, TOP, rng.random(), rng.random()]), rng.random())])
+        calls.append(c)
+    return {"op": "hist", "cat": "hist", "kind": kind, "calls": calls}
+
+
+XS_POOL = [5e-324, 1e-323, 1e-310, 2.2250738585072014e-308, 1e-300, 1e-200, 1e-100, 1e-20, 1e-6, 1.0, 1e6, 1e100, 1e300,
+           1.7e308]
+XA_POOL = [-800.0, -746.0, -745.2, -745.13, -745.0, -744.5, -744.2, -744.0, -740.0, -700.0, -100.0, -1.0, 0.0, 1.0, 100.0,
+           700.0, 709.0, 709.5, 709.78, 709.79, 710.0, 750.0]
+
+
+def xlogn_case(rng):
+    """mutESLogNormal around the boundary of the positivity clause: the exponent argument is steered to a target value
+    (first gauss draw 0, the locus draw = target / t) or left to boundary / normal gauss draws under a large c"""
+    n = rng.choice([1, 1, 1, 2, 3])
+    c = rng.choice([1.0, 10.0, 50.0, 61.0, 100.0, 500.0, 1000.0])
+    s = [rng.choice(XS_POOL) if rng.random() < 0.7 else 10.0 ** rng.uniform(-320, 308) for _ in range(n)]
+    t = c / math.sqrt(2. * math.sqrt(n))
+    zs = [0.0 if rng.random() < 0.7 else rand_z(rng, 0.5)]
+    for i in range(n):
+        r = rng.random()
+        if r < 0.55:
+            z = rng.choice(XA_POOL) / t
+        elif r < 0.75:                       # the product boundary of this strategy: s * exp(a) ~ 2^-1074
+            a = math.log(5e-324) - math.log(s[i]) if s[i] > 0 else 0.0
+            z = (a + rng.choice([-2.0, -1.0, -0.5, 0.0, 0.5, 1.0, 2.0])) / t
+        else:
+            z = rand_z(rng, 0.7)
+        zs += [z, rand_z(rng, 0.3)]
+    return {"op": "logn", "xlogn": True, "cat": "xlogn", "cont": rng.choice(["list", "list", "array", "ndarray"]),
+            "x": [rng.uniform(-1, 1) for _ in range(n)], "s": s, "c": c, "indpb": 1.0 if rng.random() < 0.9 else 0.5,
+            "rs": [rng.random() for _ in range(n)], "zs": zs}
+
+
 def generate(tier, rng, mult):
     for d in grid(tier):
         yield d
     thorough = tier == "thorough"
+    for _ in range((20000 if thorough else 2500) * mult):
+        yield hist_case(rng)
     for _ in range((40000 if thorough else 4000) * mult):
         yield clamp_case(rng, "sbxb")
     for _ in range((40000 if thorough else 4000) * mult):
@@ -1374,6 +1736,12 @@ def generate(tier, rng, mult):
         yield xmag_case(rng, "sbxb")
     for _ in range((150000 if thorough else 2500) * mult):
         yield xmag_case(rng, "poly")
+    # the inputs of the witness theorems C10.lognormal_underflow_zero / lognormal_overflow_raises on the real code
+    for sv, zv in ((1.0, -746.0), (5e-324, -1.0), (1e-300, -60.0), (1.0, 710.0), (1.0, -744.0), (1e-6, -600.0)):
+        yield {"op": "logn", "xlogn": True, "cat": "xlogn", "x": [0.5], "s": [sv], "c": math.sqrt(2.0), "indpb": 1.0,
+               "rs": [0.25], "zs": [0.0, zv, 0.5]}
+    for _ in range((60000 if thorough else 3000) * mult):
+        yield xlogn_case(rng)
     for _ in range((4000 if thorough else 400) * mult):
         yield alias_case(rng)
     # every operator on every kind of sequence individual (which pairs run never depends on the seed)
